@@ -348,6 +348,9 @@ def _judge(paths, res, ents, outside, mx, when="", safety=True, complete=True, l
                 return ("outside-content", f"{when}{lvl}: request {_short(sp)} -> response contains the content of file(s) {[files[i][1] for i in leaked]} whose real path lies outside the document root")
             if x["mark"]:
                 return ("outside-listing", f"{when}{lvl}: request {_short(sp)} -> response shows entries of a directory outside the document root")
+            if x["st"] == 20 and x.get("resolves") is False:
+                return ("success-for-nothing", f"{when}{lvl}: request {_short(sp)} -> 20, but that path (canonical form {_short(T.ref_canonical(T.url_path(sp)[1]))}) "
+                        f"names nothing below the document root (no such entry / not a directory / loop): {r[:3]}")
             if x["st"] != 20:
                 if not x["nobody"]:
                     return ("error-with-body", f"{when}{lvl}: request {_short(sp)} -> status {x['st']} with a body")
